@@ -59,6 +59,7 @@ func NewTimeoutTicker() TimeoutTicker {
 		timer:    time.NewTimer(0),
 		tickChan: make(chan timeoutInfo, tickTockBufferSize),
 		tockChan: make(chan timeoutInfo, tickTockBufferSize),
+		Logger:   log.New(),
 	}
 	tt.stopTimer() // don't want to fire until the first scheduled timeout
 	return tt
